@@ -89,6 +89,29 @@ def cases(tier, seed):
         flat = [x for o in ops[i:i + 40] for x in o]
         cs.append(Case("i%d" % n, flat, ("init",)))
         n += 1
+    # initialising a table a second time after its description was edited in place: nothing of what the first
+    # initialisation (and the operations since) left in the structures may show through
+    multi = [a for a in AREA_SETS if a.count("|") >= 1]
+    good_layouts = [l for l in layouts if l]
+    for j in range(60 if tier == "quick" else 600):
+        aset = rnd.choice(multi)
+        aset2 = aset if rnd.random() < 0.7 else rnd.choice(multi)
+        seq = []
+        first = True
+        for _ in range(rnd.choice([2, 2, 3])):
+            lay = rnd.choice(good_layouts)
+            if not first and rnd.random() < 0.5:
+                # the same registers, moved by a word or two
+                lay = [(max(14, a + rnd.choice([-2, -1, 0, 1, 2, 4])), sz) for a, sz in lay]
+                lay.sort()
+            bad_at = rnd.choice([None, None, None, 0, 1])
+            ents = "|".join(entry(rnd, sz, a, i != bad_at) for i, (a, sz) in enumerate(lay)) or "-"
+            seq += ["rt.%s %d %s %s" % ("table" if first else "edit", j % 2, aset if first else aset2, ents), "rt.init"]
+            seq += ["rt.get %d" % i for i in range(len(lay) + 1)]
+            seq += ["rt.set %d u16 0013" % rnd.randrange(len(lay)), "rt.set %d u32 00000014" % rnd.randrange(len(lay)),
+                    "rt.bwrite %d 00150016" % rnd.randint(15, 24), "rt.bread 16 6", "rt.foreach 14 16 -", "rt.sanitise"]
+            first = False
+        cs.append(Case("re%d" % j, seq, ("re-initialisation",)))
     return cs
 
 
